@@ -39,6 +39,54 @@ fn check_unary(a: u16) -> Result<(), String> {
     if got != want {
         return Err(format!("iter() of {a:#014b} yields {:?}, expected {:?}", got, want));
     }
+    // ... through every way the Iterator trait offers to consume it (an implementation may
+    // override any provided method): nth, skip, step_by, count, last, fold, size_hint, and
+    // a walk resumed after each of them
+    let n = want.len();
+    if ea.iter().count() != n || ea.iter().last() != want.last().copied() {
+        return Err(format!("iter().count()/last() of {a:#014b}"));
+    }
+    let folded = ea.iter().fold(Vec::new(), |mut v, x| {
+        v.push(x);
+        v
+    });
+    if folded != want {
+        return Err(format!("iter().fold() of {a:#014b} visits {:?}, expected {:?}", folded, want));
+    }
+    for k in 0..=n + 1 {
+        let mut it = ea.iter();
+        for _ in 0..k.min(n) {
+            it.next();
+        }
+        let (lo, hi) = it.size_hint();
+        let rest = n - k.min(n);
+        if lo > rest || hi.map_or(false, |h| h < rest) {
+            return Err(format!("iter() of {a:#014b} after {k} items: size_hint ({lo}, {hi:?}) excludes the {rest} remaining"));
+        }
+        // nth from every position, then the walk continues behind the returned member
+        for j in 0..=n + 1 {
+            let mut it2 = it.clone();
+            let got = it2.nth(j);
+            let pos = k.min(n) + j;
+            if got != want.get(pos).copied() {
+                return Err(format!("iter() of {a:#014b}: after {k} items nth({j}) gives {:?}, expected {:?}", got, want.get(pos)));
+            }
+            let tail: Vec<Effects> = it2.collect();
+            let want_tail: &[Effects] = if pos < n { &want[pos + 1..] } else { &[] };
+            if tail != want_tail {
+                return Err(format!("iter() of {a:#014b}: after {k} items and nth({j}) the walk continues with {:?}, expected {:?}", tail, want_tail));
+            }
+        }
+        let skipped: Vec<Effects> = ea.iter().skip(k).collect();
+        if skipped != want[k.min(n)..] {
+            return Err(format!("iter().skip({k}) of {a:#014b} yields {:?}, expected {:?}", skipped, &want[k.min(n)..]));
+        }
+        let stepped: Vec<Effects> = ea.iter().step_by(k + 1).collect();
+        let want_stepped: Vec<Effects> = want.iter().copied().step_by(k + 1).collect();
+        if stepped != want_stepped {
+            return Err(format!("iter().step_by({}) of {a:#014b} yields {:?}, expected {:?}", k + 1, stepped, want_stepped));
+        }
+    }
     // Debug names exactly the members
     let names: Vec<&str> = (0..12).filter(|i| a >> i & 1 == 1).map(|i| EFFECT_NAMES[i]).collect();
     let want_dbg = format!("Effects({})", names.join(" | "));
